@@ -13,7 +13,7 @@ def viewOfObs (o : Obs) : View :=
     pdir := o.pd.isSome,
     arts := match o.pd with | some (a, _) => a | none => [],
     junk := match o.pd with | some (_, j) => j | none => [],
-    la := o.la }
+    la := o.la, outside := o.outside }
 
 /-- Verdict: `none` = accepted; `some (step, reason)` = first rejection. -/
 abbrev Verdict := Option (Nat × String)
